@@ -390,11 +390,39 @@ def run(M, c):
         e1 = date_model(x, [-v for v in cp])
         if e1 is not None:
             M.check("operators", fields(m1) == e1, "C04/operator-minus:date", "Date - duration differs from the calendar model", start=repr(x), d=repr(D), got=repr(m1))
+    if not isdate and c["via"] % 2 == 0:
+        _implied_days(M, x, vals, key)
     ok = _same(m1, m2) and _same(m2, m3)
     which = ("m1!=m2 " if not _same(m1, m2) else "") + ("m2!=m3" if not _same(m2, m3) else "")
     M.check("threeway", ok, "C04/threeway:" + ("interval" if isinstance(D, P.Interval) else "duration") + (":date" if isdate else ""),
             "dt - d, dt + (-d), dt.subtract(**components(d)) disagree: " + which, start=judge.desc(x), d=repr(D),
             minus=judge.desc(m1), plus_neg=judge.desc(m2), subtract=judge.desc(m3))
+
+
+def _implied_days(M, x, vals, key):
+    """a Duration whose day part is only implied by its time units (hours=48, minutes=2160 ...): the operators and
+    subtract() must all follow its normalised components"""
+    P = M.pendulum
+    hours = vals[4] + 24 * (7 * vals[2] + vals[3])
+    kw = {"years": vals[0], "months": vals[1], "hours": hours, "minutes": vals[5], "seconds": vals[6], "microseconds": vals[7]}
+    if hours % 2:
+        kw["minutes"] += 60 * hours
+        kw["hours"] = 0
+    try:
+        D = P.duration(**{n: v for n, v in kw.items() if v})
+        cp = comps(D)
+        m1 = x - D
+        m2 = x + (-D)
+        m3 = x.subtract(**dict(zip(NAMES, cp)))
+    except (OverflowError, ValueError):
+        M.count("out_of_range")
+        return
+    # (dt + d for such a d follows the arguments d was built from - `_signature` - which the statement does not fix;
+    #  only the three subtraction forms are required to agree)
+    judge_add(M, "operators", x, [-v for v in cp], m1, "operator-minus-implied-days")
+    ok = _same(m1, m2) and _same(m2, m3)
+    M.check("threeway", ok, "C04/threeway:duration:implied-days", "dt - d, dt + (-d), dt.subtract(**components(d)) disagree for a Duration built from "
+            "time units only", start=judge.desc(x), d=repr(D), minus=judge.desc(m1), plus_neg=judge.desc(m2), subtract=judge.desc(m3))
 
 
 def _same(a, b):
